@@ -435,3 +435,22 @@ def run_one(ctx: Any, seed: int, tier: str, replay: Optional[dict] = None) -> di
         "sim_time": sim_time,
         "samples": samples,
     }
+
+
+def shrink_candidates(rp: dict):
+    import copy
+
+    from vsim.shrink import list_candidates
+
+    for h in list_candidates(rp["history"]):
+        if h:
+            r = copy.deepcopy(rp)
+            r["history"] = h
+            yield "drop history ops", r
+    srcs = sorted(k for k in rp["world"]["sources"] if k != "proj/.sqlfluff" and k != rp["world"].get("extra"))
+    for keep in list_candidates(srcs):
+        r = copy.deepcopy(rp)
+        for k in set(srcs) - set(keep):
+            r["world"]["sources"].pop(k, None)
+            r["world"]["files"].pop(k, None)
+        yield "drop config sources", r
